@@ -837,8 +837,9 @@ func (s *Subscription) Dispose() {
 
 	if s.resourceSub != nil {
 		// The state is already set to disposed. Use the previous state to
-		// tell if the references have been sent to the client.
-		s.unsubscribeRefs(state == stateSent)
+		// tell if the references have been sent to the client. A deleted
+		// resource had been sent as well.
+		s.unsubscribeRefs(state == stateSent || state == stateDeleted)
 		if state != stateDeleted {
 			s.resourceSub.Unsubscribe(s)
 		}
